@@ -559,8 +559,12 @@ class Pickled(OpcodeSequence):
 
         :param magic: magic integer value to add
         :param index: index in opcodes list where to insert the magic"""
+        if index < 0:
+            # resolve a negative index first: once INT is inserted the same negative index (or
+            # index + 1) no longer designates the slot right after it
+            index = max(len(self) + index, 0)
         self.insert(index, Int(magic))
-        self.insert(-1 if index == -1 else index + 1, Pop())
+        self.insert(index + 1, Pop())
 
     def insert_function_call_on_unpickled_object(
         self,
